@@ -7,7 +7,8 @@
 //   * a parameter (or receiver) p of struct or pointer-to-struct type becomes a parameter of a
 //     generated Record  <Def>_<p>  whose fields are exactly the ATOMS the body reads from p:
 //       p.f, p.f.g            field chains whose final type is an integer / bool / byte string
-//       p.M(), p.f.M()        nullary method calls (not themselves translated) with such a result
+//       p.M(), p.f.M()        nullary method calls (not themselves translated) with such a result, read as pure getters
+//                             (a nullary method returning an error or several values is an action: an effect, see below)
 //       p == nil, p.M() == nil   nil tests (bool atoms  ..._isnil)
 //     (fields are listed in sorted order and addressed by NAME in the theorems, so a harmless
 //     re-ordering of statements does not change the statement);
@@ -76,6 +77,7 @@ type absCtx struct {
 	outer    []string // block mode: outer scalar variables assigned inside the block
 	lo, hi   token.Pos
 	oracles  map[*ast.AssignStmt][]string // results of untranslated calls: oracle parameter per left-hand side ("" = none)
+	retOracles map[*ast.ReturnStmt][]string // `return call(..)` of an untranslated call: oracle parameter per result
 	oparams  []string                     // oracle parameters "(name : type)" in call-site order
 	slices   []string                     // []byte parameters written in place (threaded, returned)
 	scalars  map[string]bool              // names of the scalar parameters
@@ -121,6 +123,11 @@ func (tr *translator) lhsType(e ast.Expr) types.Type {
 	return tr.typeOf(e)
 }
 
+func (tr *translator) translatable(t types.Type) bool {
+	_, ok := tr.tryCoqType(t)
+	return ok
+}
+
 func isNilIdent(e ast.Expr) bool {
 	id, ok := e.(*ast.Ident)
 	return ok && id.Name == "nil"
@@ -162,6 +169,12 @@ func (tr *translator) absPath(e ast.Expr) (base string, path string, ok bool) {
 		}
 		if _, _, _, translated := tr.calleeName(e.Fun); translated {
 			return "", "", false
+		}
+		// a nullary method is read as a pure getter (an atom) unless it returns an error or several values: those are actions (effects)
+		if tv, ok := tr.pi.info.Types[e]; ok {
+			if _, ist := tv.Type.(*types.Tuple); ist || isErrorType(tv.Type) {
+				return "", "", false
+			}
 		}
 		return tr.absPath(se)
 	}
@@ -245,7 +258,8 @@ func (tr *translator) isOpaqueCall(ce *ast.CallExpr) bool {
 			case "math", "math/bits", "encoding/binary", "unicode/utf8":
 				return false
 			}
-			if obj.Pkg().Path()+"."+obj.Name() == modPath+"/meta.NewError" {
+			switch obj.Pkg().Path() + "." + obj.Name() {
+			case modPath + "/meta.NewError", "errors.New", "fmt.Errorf":
 				return false
 			}
 		}
@@ -291,6 +305,11 @@ func (tr *translator) effect(ce *ast.CallExpr) string {
 			args = append(args, tr.expr(a))
 		} else if isBool(t) {
 			args = append(args, "(Z.b2z "+tr.expr(a)+")")
+		} else if _, isf := isFloat(t); isf {
+			// a floating-point constant zero is passed as its IEEE bit pattern; other float arguments are left out
+			if tv, ok := tr.pi.info.Types[a]; ok && tv.Value != nil && constant.Sign(tv.Value) == 0 {
+				args = append(args, "0")
+			}
 		}
 	}
 	tr.abs.hasEff = true
@@ -548,6 +567,9 @@ func (tr *translator) absStmt(list []ast.Stmt, k func() string) (string, bool) {
 				}
 			}
 			return pre + tr.blockRet("Out_return"), true
+		}
+		if names, ok := a.retOracles[s]; ok {
+			return tr.effect(s.Results[0].(*ast.CallExpr)) + tr.retTuple(names), true
 		}
 		if a.optPanic && len(s.Results) == 1 && tr.containsOptCall(s.Results[0]) {
 			v, opt := tr.exprOpt(s.Results[0])
@@ -856,7 +878,27 @@ func (tr *translator) absDefinition(defName, srcName string, fd *ast.FuncDecl, b
 		}
 		return true
 	})
+	a.retOracles = map[*ast.ReturnStmt][]string{}
 	ast.Inspect(body, func(x ast.Node) bool {
+		if rs, isr := x.(*ast.ReturnStmt); isr && blk == nil && len(rs.Results) == 1 {
+			if ce, isc := rs.Results[0].(*ast.CallExpr); isc && tr.isOpaqueCall(ce) {
+				if tup, ist := tr.typeOf(ce).(*types.Tuple); (ist && tup.Len() == sig.Results().Len()) || (!ist && sig.Results().Len() == 1) {
+					site++
+					var names []string
+					for i := 0; i < sig.Results().Len(); i++ {
+						ty, ok := tr.tryCoqType(sig.Results().At(i).Type())
+						if !ok {
+							fail(rs, "result %d of %s is not translatable", i, srcOf(ce))
+						}
+						n := fmt.Sprintf("or%d_ret%d", site, i)
+						names = append(names, n)
+						a.oparams = append(a.oparams, "("+n+" : "+ty+")")
+					}
+					a.retOracles[rs] = names
+				}
+			}
+			return true
+		}
 		as, ok := x.(*ast.AssignStmt)
 		if !ok || idiom[as] || len(as.Rhs) != 1 || (as.Tok != token.DEFINE && as.Tok != token.ASSIGN) {
 			return true
